@@ -15,7 +15,7 @@ TECHNIQUE = 'deterministic simulation, differential oracle across option sets, h
 LEVEL = 'exploration'
 BUDGET = {'quick': 200, 'thorough': 2000}
 NCASES = {'quick': 1500, 'thorough': 9000}
-RULE = ('three case kinds. complete: a peer whose lists are built from database names classed fail / warn / clean in seeded order (a fifth of them with a gss-* key exchange, half of those with nothing else to find), audited with the default options and '
+RULE = ('three case kinds. complete: a peer whose lists are built from database names classed fail / warn / clean in seeded order (a fifth of them with a gss-* key exchange and 15% with a name unknown to the database, half of each with nothing else to find), audited with the default options and '
         'with 3 seeded option sets out of subsets of {-b,-v,-n,-l warn,-l fail,-j,-jj,-2,NO_COLOR}. broken: C09 archetypes with a fault placed on the first connection '
         'before the algorithm lists are complete (refuse, black-hole, truncate/stall/reset at an offset, garbage, wrong first message, SSH-1 bad CRC) x option sets. '
         'policy: -P with a custom policy that the peer passes or fails in one field. non-trivial: (a) >= 2 severities present, (b) the fault fired before the lists '
@@ -81,6 +81,19 @@ def cases(seed, tier):
             if any(g in prof['kex'] for g in gen.GEX):
                 prof['gex'] = {'sizes': [rng.choice([1024, 2048, 4096])], 'style': 'roundup'}
             prof['comp'] = ['none']
+            r3 = gen.case_rng(seed, ID, i, 'unknown')
+            if r3.random() < 0.15:
+                # a name the database does not know is a warning-level finding of its own; in half of these it is the only finding
+                if r3.random() < 0.5:
+                    for cat in CATS:
+                        cl = cls[cat][2]
+                        prof[cat] = r3.sample(cl, min(len(cl), r3.randrange(1, 3)))
+                    prof['kex'] = [k for k in prof['kex'] if k not in gen.PROBE_KEX] or ['sntrup761x25519-sha512@openssh.com']
+                    prof['kex'].append('kex-strict-s-v00@openssh.com')
+                    prof['keys'] = {}
+                    mix = 'unknown-only'
+                ucat = r3.choice(CATS)
+                prof[ucat].insert(r3.randrange(len(prof[ucat]) + 1), gen.unknown_name(r3, ucat))
             r2 = gen.case_rng(seed, ID, i, 'gss')
             if r2.random() < 0.2:
                 # a Kerberos-enabled peer: one gss-* key exchange (rated through the database's wildcard entry); in half of these every
